@@ -144,6 +144,9 @@ def judge_sums(res, findings, counts, feats):
             continue    # C04 owns what a rejected security shows
         if straddle:
             feats.add("year_straddling_sale")
+        if len(labels) != len(vals) or any(ref.money(v) is None for v in vals if labels != [""]):
+            findings.append({"what": "footer labels and figures do not line up", "where": sec, "labels": labels, "figures": vals})
+            continue
         total = ref.money(foot.get("Total", "$0"))
         years = {int(k): ref.money(v) for k, v in foot.items() if k != "Total"}
         n_years_total |= set(years)
